@@ -201,6 +201,14 @@ Proof.
   apply IH; assumption.
 Qed.
 
+Lemma intended_all_last_valid : forall ops ro,
+  Forall ro_valid (intended_all ro ops) -> ro_valid (intended ro ops).
+Proof.
+  induction ops as [|o ops IH]; intros ro Hall.
+  - simpl in *. inversion Hall; assumption.
+  - simpl in Hall. inversion Hall; subst. unfold intended. simpl. apply IH. assumption.
+Qed.
+
 (* ------------------------------------------------------------------------------------------------ *)
 (* the loop                                                                                           *)
 
@@ -354,7 +362,7 @@ Section Runs.
     destruct (guards_pass (g_rp G) (r_start ro) (R1 ts)) eqn:Hp; [|discriminate].
     unfold ro_valid. rewrite Ht.
     unfold rp_complete in HG. apply andb_true_iff in HG as [HG H3]. apply andb_true_iff in HG as [H1 H2].
-    apply guards_imply_valid; [rewrite <- Ht; exact Hnf| | |]; eapply gmem_pass; eassumption.
+    apply guards_imply_valid; [exact Hnf| | |]; eapply gmem_pass; eassumption.
   Qed.
 
   Lemma scenario_invalid : rp_complete G = true ->
@@ -381,10 +389,7 @@ Section Runs.
     unfold ctor. unfold ro_valid in Hro. simpl in Hro.
     rewrite (valid_passes _ _ _ Hro), (valid_concat_ok _ _ Hro). simpl.
     fold ro. rewrite (apply_ops_valid G ops ro Hp Hall).
-    apply run_valid; [exact Hts|].
-    clear - Hall. revert ro Hall. induction ops as [|o ops IH]; intros ro Hall.
-    - simpl in *. inversion Hall; assumption.
-    - simpl in Hall. inversion Hall; subst. unfold intended. simpl. apply IH. assumption.
+    apply run_valid; [exact Hts|]. apply intended_all_last_valid. exact Hall.
   Qed.
 
   Lemma scenario_no_leak : empty_table_ok E = true ->
@@ -408,12 +413,13 @@ Section Runs.
     rewrite (loop_clocks A zero E prog (r_nd ro) (r_start ro) (Z.of_nat (length ts)) ts (r_start ro) 0).
     apply map_ext_in. intros k Hk. apply in_seq in Hk.
     unfold gclock, spec_clock. simpl Nat.add.
-    f_equal.
-    - destruct k; reflexivity.
-    - destruct k; [reflexivity|]. symmetry. apply Z.eqb_neq. lia.
-    - destruct (Nat.eqb (S k) (length ts)) eqn:Ek.
-      + apply Nat.eqb_eq in Ek. apply Z.eqb_eq. lia.
-      + apply Nat.eqb_neq in Ek. apply Z.eqb_neq. lia.
+    assert (H1 : Z.eqb (Z.of_nat k) 0 = Nat.eqb k 0).
+    { destruct k; [reflexivity|]. apply Z.eqb_neq. lia. }
+    assert (H2 : Z.eqb (Z.of_nat k) (Z.of_nat (length ts) - 1) = Nat.eqb (S k) (length ts)).
+    { destruct (Nat.eqb (S k) (length ts)) eqn:Ek.
+      - apply Nat.eqb_eq in Ek. apply Z.eqb_eq. lia.
+      - apply Nat.eqb_neq in Ek. apply Z.eqb_neq. lia. }
+    rewrite H1, H2. destruct k; reflexivity.
   Qed.
 
   Lemma trace_length : forall ro ts prog d0, length (trace_of ro ts prog d0) = length ts.
@@ -445,3 +451,190 @@ Section Runs.
     rewrite Hs in Hc. simpl in Hc. congruence.
   Qed.
 End Runs.
+
+(* ------------------------------------------------------------------------------------------------ *)
+(* statements in the form used by Properties/C02.v                                                    *)
+
+(* the caller only ever installs valid schedules, in list form, and does not use replace() without
+   `times` (replace() hands an ndarray to the constructor, see C02_valid_runs_refuted) *)
+Definition valid_scenario (r : raw) (s : tv) (nd : bool) (ops : list op) : Prop :=
+  forallb plain_op ops = true
+  /\ Forall ro_valid (intended_all {| r_times := r; r_start := s; r_nd := nd |} ops).
+
+Definition final (r : raw) (s : tv) (nd : bool) (ops : list op) : readout :=
+  intended {| r_times := r; r_start := s; r_nd := nd |} ops.
+
+Lemma valid_scenario_final : forall r s nd ops, valid_scenario r s nd ops ->
+  exists qs st, r_times (final r s nd ops) = R1 (map TQ qs) /\ r_start (final r s nd ops) = TQ st
+                /\ valid_q qs st.
+Proof.
+  intros r s nd ops [_ Hall]. apply intended_all_last_valid in Hall.
+  destruct Hall as [qs [st [H1 [H2 H3]]]]. exists qs, st. auto.
+Qed.
+
+Lemma nth_map_TQ : forall qs i, (i < length qs)%nat -> nth i (map TQ qs) TNaN = TQ (nth i qs 0).
+Proof.
+  intros qs i Hi. rewrite (nth_indep _ TNaN (TQ 0)) by (rewrite map_length; exact Hi).
+  apply (map_nth TQ).
+Qed.
+
+Section Statements.
+  Variable A : Type.
+  Variable zero : A.
+  Variable G : guard_table.
+  Variable E : empty_table.
+
+  Lemma loop_steps : forall prog nd start n ts prev i d,
+    map (fun o => c_step (o_clock o)) (run_loop A zero E prog nd start n i (combine ts (tdiff (prev :: ts))) d)
+    = tdiff (prev :: ts).
+  Proof.
+    intros prog nd start n. induction ts as [|t ts IH]; intros prev i d; [reflexivity|].
+    change (tdiff (prev :: t :: ts)) with (tsub t prev :: tdiff (t :: ts)).
+    simpl. f_equal. apply IH.
+  Qed.
+
+  Lemma st_runs : forall r s nd ops prog d0, valid_scenario r s nd ops ->
+    exists qs st,
+      r_times (final r s nd ops) = R1 (map TQ qs) /\ r_start (final r s nd ops) = TQ st /\ valid_q qs st
+      /\ scenario A zero G E FList r s nd ops prog d0
+         = Ran (trace_of A zero E (final r s nd ops) (map TQ qs) prog d0).
+  Proof.
+    intros r s nd ops prog d0 Hv. destruct (valid_scenario_final _ _ _ _ Hv) as [qs [st [H1 [H2 H3]]]].
+    exists qs, st. repeat split; try assumption.
+    destruct Hv as [Hp Hall]. apply scenario_valid; assumption.
+  Qed.
+
+  (* C02_once_per_time_in_order *)
+  Lemma st_once_in_order : forall r s nd ops prog d0, valid_scenario r s nd ops ->
+    exists qs trace,
+      r_times (final r s nd ops) = R1 (map TQ qs)
+      /\ scenario A zero G E FList r s nd ops prog d0 = Ran trace
+      /\ map (fun o => c_time (o_clock o)) trace = map TQ qs
+      /\ length trace = length qs.
+  Proof.
+    intros r s nd ops prog d0 Hv. destruct (st_runs r s nd ops prog d0 Hv) as [qs [st [H1 [H2 [H3 H4]]]]].
+    exists qs, (trace_of A zero E (final r s nd ops) (map TQ qs) prog d0).
+    repeat split; try assumption.
+    - apply trace_times.
+    - rewrite trace_length, map_length. reflexivity.
+  Qed.
+
+  (* C02_clock *)
+  Lemma st_clock : forall r s nd ops prog d0, valid_scenario r s nd ops ->
+    exists qs st trace,
+      r_times (final r s nd ops) = R1 (map TQ qs) /\ r_start (final r s nd ops) = TQ st
+      /\ scenario A zero G E FList r s nd ops prog d0 = Ran trace
+      /\ forall i o, nth_error trace i = Some o ->
+           c_time (o_clock o) = TQ (nth i qs 0)
+           /\ c_step (o_clock o) = TQ (nth i qs 0 - nth i (st :: qs) 0)
+           /\ c_abs (o_clock o) = TQ (st + nth i qs 0)
+           /\ c_count (o_clock o) = Z.of_nat i
+           /\ c_first (o_clock o) = Nat.eqb i 0
+           /\ c_last (o_clock o) = Nat.eqb (S i) (length qs).
+  Proof.
+    intros r s nd ops prog d0 Hv. destruct (st_runs r s nd ops prog d0 Hv) as [qs [st [H1 [H2 [H3 H4]]]]].
+    exists qs, st, (trace_of A zero E (final r s nd ops) (map TQ qs) prog d0).
+    repeat split; try assumption;
+      pose proof (trace_clock_nth A zero E _ _ _ _ _ _ H) as Hc;
+      assert (Hi : (i < length qs)%nat)
+        by (rewrite <- (map_length TQ qs), <- (trace_length A zero E (final r s nd ops) (map TQ qs) prog d0);
+            apply nth_error_Some; congruence);
+      rewrite Hc, H2; unfold spec_clock; simpl.
+    - apply nth_map_TQ; exact Hi.
+    - rewrite nth_map_TQ by exact Hi. destruct i as [|j]; [reflexivity|].
+      rewrite nth_map_TQ by lia. reflexivity.
+    - rewrite nth_map_TQ by exact Hi. reflexivity.
+    - reflexivity.
+    - reflexivity.
+    - rewrite map_length. reflexivity.
+  Qed.
+
+  (* the steps the models see add up to end time - start time *)
+  Lemma st_steps_sum : forall r s nd ops prog d0, valid_scenario r s nd ops ->
+    exists qs st trace,
+      r_times (final r s nd ops) = R1 (map TQ qs) /\ r_start (final r s nd ops) = TQ st
+      /\ scenario A zero G E FList r s nd ops prog d0 = Ran trace
+      /\ map (fun o => c_step (o_clock o)) trace = map TQ (steps_q st qs)
+      /\ qsum (steps_q st qs) == last qs st - st.
+  Proof.
+    intros r s nd ops prog d0 Hv. destruct (st_runs r s nd ops prog d0 Hv) as [qs [st [H1 [H2 [H3 H4]]]]].
+    exists qs, st, (trace_of A zero E (final r s nd ops) (map TQ qs) prog d0).
+    repeat split; try assumption.
+    - unfold trace_of, steps. rewrite loop_steps, H2. apply (steps_map st qs).
+    - apply steps_telescope.
+  Qed.
+
+  Hypothesis HE : empty_table_ok E = true.
+
+  (* C02_step_start_buckets *)
+  Lemma st_step_start : forall r s nd ops prog d0, valid_scenario r s nd ops ->
+    exists trace,
+      scenario A zero G E FList r s nd ops prog d0 = Ran trace
+      /\ forall i o, nth_error trace i = Some o ->
+           scene (o_begin o) = None /\ photon (o_begin o) = None /\ charge (o_begin o) = None
+           /\ signal (o_begin o) = None /\ image (o_begin o) = None
+           /\ pixel (o_begin o) =
+              match i with
+              | O => Some zero
+              | S j => if r_nd (final r s nd ops)
+                       then match nth_error trace j with Some p => pixel (o_end p) | None => Some zero end
+                       else Some zero
+              end.
+  Proof.
+    intros r s nd ops prog d0 Hv. destruct (st_runs r s nd ops prog d0 Hv) as [qs [st [H1 [H2 [H3 H4]]]]].
+    exists (trace_of A zero E (final r s nd ops) (map TQ qs) prog d0). split; [exact H4|].
+    intros i o Hn.
+    pose proof (trace_begins A zero E HE (final r s nd ops) (map TQ qs) prog d0) as Hb.
+    pose proof (begins_ok_nth A zero _ _ _ Hb i o Hn) as Hs. rewrite Hs. unfold spec_begin. simpl.
+    repeat split. destruct i as [|j]; [reflexivity|].
+    destruct (nth_error (trace_of A zero E (final r s nd ops) (map TQ qs) prog d0) j) as [p|] eqn:Ej; simpl.
+    - reflexivity.
+    - destruct (r_nd (final r s nd ops)); reflexivity.
+  Qed.
+End Statements.
+
+(* ------------------------------------------------------------------------------------------------ *)
+(* the bool oracle used by the correspondence leg decides exactly the validity predicate of the
+   theorems                                                                                           *)
+
+Lemma increasing_b_iff : forall qs, increasing_b (map TQ qs) = true <-> increasing_q qs.
+Proof.
+  induction qs as [|a qs IH]; [simpl; tauto|].
+  destruct qs as [|b qs]; [simpl; tauto|].
+  change (increasing_b (map TQ (a :: b :: qs)))
+    with ((true && true && negb (Qle_bool b a)) && increasing_b (map TQ (b :: qs))).
+  change (increasing_q (a :: b :: qs)) with (a < b /\ increasing_q (b :: qs)).
+  rewrite andb_true_iff, IH. simpl andb. rewrite negb_true_iff.
+  split; intros [H1 H2]; split; try assumption.
+  - destruct (Qlt_le_dec a b) as [Hlt|Hle]; [exact Hlt|]. apply Qle_bool_iff in Hle. congruence.
+  - destruct (Qle_bool b a) eqn:Eb; [|reflexivity]. apply Qle_bool_iff in Eb. exfalso. lra.
+Qed.
+
+Lemma forallb_finite_map : forall qs, forallb tv_finite (map TQ qs) = true.
+Proof. induction qs; simpl; auto. Qed.
+
+Lemma valid_b_iff : forall r start, valid_b r start = true <-> valid r start.
+Proof.
+  intros r start. split.
+  - intros H. destruct r as [ts|]; [|discriminate]. destruct ts as [|t0 ts']; [discriminate|].
+    unfold valid_b in H. repeat rewrite andb_true_iff in H. destruct H as [[[[Hf Hs] Hz] Hlt] Hinc].
+    destruct (finite_map _ Hf) as [qs Hq]. destruct start as [s|]; [|discriminate].
+    exists qs, s. split; [rewrite Hq; reflexivity|]. split; [reflexivity|].
+    destruct qs as [|q0 qs]; [discriminate|]. injection Hq as -> ->.
+    unfold valid_q. repeat split.
+    + intros Hc. apply negb_true_iff in Hz. apply Qeq_bool_iff in Hc. simpl in Hz. congruence.
+    + apply negb_true_iff in Hlt. simpl in Hlt. destruct (Qlt_le_dec s q0) as [Hl|Hle]; [exact Hl|].
+      apply Qle_bool_iff in Hle. congruence.
+    + apply (increasing_b_iff (q0 :: qs)). exact Hinc.
+  - intros [qs [s [-> [-> Hv]]]]. destruct qs as [|q0 qs]; [destruct Hv|].
+    destruct Hv as [Hnz [Hlt Hinc]].
+    change (valid_b (R1 (map TQ (q0 :: qs))) (TQ s))
+      with (forallb tv_finite (map TQ (q0 :: qs)) && true && negb (Qeq_bool q0 0) && negb (Qle_bool q0 s)
+            && increasing_b (map TQ (q0 :: qs))).
+    rewrite forallb_finite_map. rewrite (proj2 (increasing_b_iff (q0 :: qs)) Hinc).
+    assert (H1 : Qeq_bool q0 0 = false).
+    { destruct (Qeq_bool q0 0) eqn:E; [|reflexivity]. apply Qeq_bool_iff in E. contradiction. }
+    assert (H2 : Qle_bool q0 s = false).
+    { destruct (Qle_bool q0 s) eqn:E; [|reflexivity]. apply Qle_bool_iff in E. exfalso. lra. }
+    rewrite H1, H2. reflexivity.
+Qed.
